@@ -142,8 +142,10 @@ def _post_fit(call):
                     # optimiser termination: relative 1e-6; the constrained (SLSQP) path stops on an ABSOLUTE change of
                     # the objective below its documented default ftol = 1e-6
                     # (SLSQP stops when one iteration changes the objective by less than 1e-6; the distance to the
-                    #  optimum it leaves is a multiple of that - up to 2.5e-5 seen in 6000 fits - so 1e-4 is allowed)
-                    if np.isfinite(o) and o < base - (rel_slack * abs(base) + 1e-18 + 1e-15 * float(np.sum(y * y)) + (1e-4 if constraints is not None else 0.0)):
+                    #  optimum it leaves is a multiple of that in a flat valley - 2.5e-5 in 6000 fits, 3.4e-4 (0.035 %) once in
+                    #  another 3000 - so 1e-4 + 0.1 % of the residual is allowed; a constraint that is ignored or a step size
+                    #  that freezes the search is off by orders of magnitude more)
+                    if np.isfinite(o) and o < base - (rel_slack * abs(base) + 1e-18 + 1e-15 * float(np.sum(y * y)) + ((1e-4 + 1e-3 * abs(base)) if constraints is not None else 0.0)):
                         if worst is None or o < worst[0]:
                             worst = (o, j, sgn * rel, q)
         return base, worst
